@@ -376,6 +376,10 @@ def check_foreign_deletes(ctx: Check, tree: Tree) -> None:
             deps = rd.closure(rd.uses(target))
             texts = [unparse(target)] + [unparse(d.value) for d in deps if isinstance(d.value, ast.AST)]
             own = any("mkstemp(" in t or "NamedTemporaryFile(" in t or "mkdtemp(" in t for t in texts)
+            # a file the same function creates exclusively (O_CREAT | O_EXCL / mode "x") is its own, too
+            created = [unparse(n) for n in walk_function(top.node) if isinstance(n, ast.Call) and (
+                (unparse(n.func) == "os.open" and "O_EXCL" in unparse(n)) or (unparse(n.func) in {"open", "os.fdopen"} and any(isinstance(a, ast.Constant) and isinstance(a.value, str) and "x" in a.value for a in n.args[1:2])))]
+            own = own or any(unparse(target) in c or any(isinstance(nm, ast.Name) and nm.id in c for nm in ast.walk(target)) for c in created)
             enumerated = any(k in t for t in texts for k in (".glob(", ".iterdir(", "os.listdir(", "os.scandir(", ".rglob(", "os.walk("))
             loops = [unparse(d.node.iter) for d in deps if d.kind == "for" and isinstance(d.node, ast.For)]
             enumerated = enumerated or any(k in t for t in loops for k in (".glob(", ".iterdir(", "listdir(", "scandir(", ".rglob(", "os.walk("))
@@ -387,11 +391,40 @@ def check_foreign_deletes(ctx: Check, tree: Tree) -> None:
         ctx.ok("R-OWNFILES", "src/ampform/sympy", "nothing reachable from perform_cached_doit deletes or truncates a file")
 
 
+def check_no_unbounded_wait(ctx: Check, tree: Tree) -> None:
+    """R-NOWAIT: perform_cached_doit returns whatever is in the cache directory, also what a process
+    that was killed at any point left behind.  A loop that waits (sleeps / retries) until a file
+    appears or disappears, without a bound on time or attempts, never returns when the process that
+    should change that file is dead (stale lock)."""
+    graph = tree.call_graph()
+    reach = {q for q in tree.reachable(ENTRY, graph) if q.startswith("ampform.sympy") and q in tree.funcs}
+    # context managers / helpers used through `with` are reached by name
+    n = 0
+    for q in sorted(reach | {q for q in tree.funcs if q.startswith("ampform.sympy::") or q.startswith("ampform.sympy._cache::")}):
+        fn = tree.funcs[q]
+        for loop in [w for w in walk_function(fn.node, nested=False) if isinstance(w, ast.While)]:
+            sleeps = [c for c in ast.walk(loop) if isinstance(c, ast.Call) and unparse(c.func).split(".")[-1] in {"sleep", "wait"}]
+            fs = [c for c in ast.walk(loop) if isinstance(c, ast.Call) and (unparse(c.func).split(".")[-1] in {"exists", "is_file", "open", "stat", "lstat", "access"} or unparse(c.func) in {"os.open", "open"})]
+            handlers = [h for h in ast.walk(loop) if isinstance(h, ast.ExceptHandler) and h.type is not None and any(k in unparse(h.type) for k in ("FileExistsError", "FileNotFoundError", "OSError", "BlockingIOError"))]
+            if not (sleeps and (fs or handlers)):
+                continue
+            n += 1
+            test_txt = unparse(loop.test)
+            bounded = any(isinstance(c, ast.Compare) and any(k in unparse(c) for k in ("time", "deadline", "timeout", "attempt", "retries", "tries", "count")) for c in ast.walk(loop))
+            ctx.verdict(bounded, "R-NOWAIT", f"{q}::wait-loop", tree.loc(loop),
+                        f"{q}: the loop `while {test_txt}` that waits on the state of a file is bounded by a deadline / number of attempts",
+                        None if bounded else "it only ends when another process changes the file: a process killed while it holds the lock / before it publishes leaves every later call hanging")
+    if n == 0:
+        ctx.ok("R-NOWAIT", "src/ampform/sympy", "no loop on the perform_cached_doit path waits for the state of a file")
+
+
 def run(ctx: Check, tree: Tree) -> None:
     ctx.decided += [
         "R-VERIFY: every value returned by perform_cached_doit is the result of doit() or a loaded value that was compared equal to the query expression on that path",
         "R-TOLERATE: exceptions of pickle.load / opening the cache file cannot propagate out; handler paths reach recomputation",
         "R-PUBLISH: the final file name is only the destination of a rename from a process-unique temporary that has been closed; it is never opened for writing",
+        "R-INJECTIVE (shared with C14): the key comparison distinguishes expressions that differ only in a non-SymPy attribute",
+        "R-NOWAIT: no unbounded wait on the state of a file (a lock left by a killed process cannot hang later calls)",
         "R-OWNFILES: the only file ever deleted is the call's own mkstemp temporary (never files found by listing the shared directory)",
         "R-HASHKEY: get_readable_hash depends on the object and the environment variable only",
     ]
@@ -445,3 +478,12 @@ def run(ctx: Check, tree: Tree) -> None:
         ctx.ok("R-PUBLISH", where, f"final cache file is never opened for writing; {interp.ok_counts['publishes']} path(s) publish by rename from a unique temporary")
     ctx.section(check_hash_function, ctx, tree)
     ctx.section(check_foreign_deletes, ctx, tree)
+    ctx.section(check_no_unbounded_wait, ctx, tree)
+    # the stored key is compared with `==`: for expressions that differ only in a non-SymPy attribute that
+    # comparison is decided by the hashable content (rule shared with C14)
+    from .c14 import check_content_injective
+
+    hook = tree.funcs.get("ampform.sympy._decorator::_hashable_content_method")
+    if hook is None:
+        raise AnalysisError("vanished anchor: _hashable_content_method")
+    ctx.section(check_content_injective, ctx, tree, hook)
